@@ -22,8 +22,9 @@ RULE = ('(c) random grammars for the dynamic lexers with one to three %ignore li
 TRUSTED_BASE = ['export of the SPPF and instrumentation of the visitor classes by subclassing '
                 '(harness/props/forest_common.py: traced_walk wraps visit_*_in/out, visit_token_node, on_cycle; the '
                 'lists returned by visit_*_in are recorded and replayed as the model parameter sel)',
-                'TreeForestTransformer is modelled on acyclic forests only; on cyclic forests its walk is covered by the '
-                'generic visitor model (termination, trace) and its output by a Python validity check of every tree',
+                'ForestToParseTree / TreeForestTransformer are modelled on cyclic graph forests with use_cache=False '
+                '(Forest/GraphTft.v, branch conditions regenerated: Gen/ForestWalk.v); values are compared as ordered '
+                'alternatives - the _iambig/_inter encoding is multiplied out by the exporter (forest_common.coq_gtft_case)',
                 'forest exactness is proved for the executable Earley model (C20_forest_exact_model, basic lexer / unit '
                 'tokens); that the model is lark (and the dynamic lexers) is compared per case: model derivations of '
                 'the exported forest = brute-force derivations']
@@ -245,7 +246,10 @@ def graph_case(ctx, root, p, w, out_cases, out_meta, cyclic, sum_cases=None, sum
         out_cases.append(case)
         out_meta.append(w)
     if tft_cases is not None:
-        tft_walks(ctx, p, w, cyclic, tft_cases, tft_meta)
+        # quick tier: at most 40 acyclic and 100 cyclic forests go through the instrumented walk
+        n_same = sum(1 for m in tft_meta if bool(m.get('cyclic')) == bool(cyclic))
+        if ctx.thorough() or ctx.widen or n_same < (200 if cyclic else 80):
+            tft_walks(ctx, p, w, cyclic, tft_cases, tft_meta)
 
 
 def named_tree(t, rules):
@@ -293,7 +297,7 @@ def tft_walks(ctx, p, w, cyclic, out_cases, out_meta):
             ctx.count('graph-tft-too-long-for-model', nontrivial=False)
         elif len(case) < 50000:
             out_cases.append(case)
-            out_meta.append(dict(w, resolve=resolve))
+            out_meta.append(dict(w, resolve=resolve, cyclic=cyclic))
 
 
 def oracle_acyclic(g, text, lexer):
@@ -771,8 +775,8 @@ def correspond(ctx):
         ctx.violation('correspondence:graph-resolve ' + what, dict(gmeta[i], no_longer_checks='graph resolve: ' + what),
                       False, 'model Forest/GraphResolve.v and lark disagree on %s' % what)
     if not ctx.widen:
-        fcases, fmeta = subset(fcases, fmeta, ctx.scale(90, 1500))
-    bad, errs = ctx.coq_bad_indices('c20f', IMPORTS_T, 'gtft_ok', fcases, chunk=30)
+        fcases, fmeta = subset(fcases, fmeta, ctx.scale(40, 1500))
+    bad, errs = ctx.coq_bad_indices('c20f', IMPORTS_T, 'gtft_ok', fcases, chunk=20)
     for e in errs:
         ctx.violation('correspondence:coq-evaluation', {'no_longer_checks': 'c20 graph-tft cases', 'detail': e}, False, e)
     for i in bad[:6]:
